@@ -90,7 +90,7 @@ def sweep_programs(ctx):
         add({"fam": "memeq", "len": n, "points": list(range(n)) if n <= 40 else boundary_points(n)})
         add({"fam": "memset", "len": n})
         add({"fam": "memcpy", "len": n})
-    hs = list(range(0, 71)) + [95, 96, 97, 127, 128, 129, 199, 200] if q else list(range(0, 201))
+    hs = list(range(0, 101)) + [127, 128, 129, 159, 160, 161, 199, 200] if q else list(range(0, 201))
     for h in hs:
         if q or h > 100:
             ns = sorted({x for x in (0, 1, 2, 3, 4, 5, 8, 15, 16, 17, 31, 32, 33, h - 1, h, h + 1) if 0 <= x <= h + 1})
@@ -100,7 +100,7 @@ def sweep_programs(ctx):
             last = h - nl
             if last < 0:
                 pts = []
-            elif h <= (70 if q else 100):
+            elif h <= 100:
                 pts = list(range(0, last + 1))
             else:
                 pts = boundary_points(last + 1, extra=(last,))
@@ -134,13 +134,17 @@ def cut_programs(ctx, cuts_path):
     """cuttings enumerated by TLC (units) -> byte-level programs for both ciphers at several unit sizes"""
     units = (1, 21, 64) if ctx.quick else (1, 7, 21, 32, 64, 100)
     P = []
-    for i, line in enumerate(lib.read_lines(cuts_path)):
-        cuts = json.loads(line)["cuts"]
-        for j, uo in enumerate(units):
-            for kind in ("salsa20", "arc4"):
+    lines = lib.read_lines(cuts_path)
+    # groups of 24 cuttings share the cipher parameters (kseed): the monitor computes a keystream once per group
+    for j, uo in enumerate(units):
+        for kind in ("salsa20", "arc4"):
+            for i, line in enumerate(lines):
+                cuts = json.loads(line)["cuts"]
+                g = i // 24
                 b = [c * uo for c in cuts]
-                P.append({"fam": "split", "kind": kind, "len": sum(b), "ivlen": 4 if (i + j) % 2 else 8, "keylen": 1 + (i * 7 + j) % 256,
-                          "blk": BLKS[(i + j) % 6], "cuts": b, "unit": uo})
+                P.append({"fam": "split", "kind": kind, "len": sum(b), "ivlen": 4 if (g + j) % 2 else 8, "keylen": 1 + (g * 7 + j) % 256,
+                          "blk": BLKS[(g + j) % 6], "cuts": b, "unit": uo, "grp": f"{kind}{uo}.{g}",
+                          "kseed": (ctx.seed * 31 + g * 1009 + j * 101 + (7 if kind == "arc4" else 0)) % (1 << 31)})
     return P
 
 
@@ -153,10 +157,14 @@ def judge_balanced(ctx, cfg, trace_path, nchunks=None, timeout=1700):
     distributed over the chunks by estimated cost (longest first) instead of contiguously; line numbers
     are mapped back to the whole trace."""
     lines = lib.read_lines(trace_path)
-    runs = []
+    runs = []          # scheduling units [start, end, cost]: a run, or consecutive runs of one "grp" (shared keystream)
+    grp = None
     for i, ln in enumerate(lines):
         if lib.is_new(ln) or not runs:
-            runs.append([i, i + 1, 0])
+            g = ln.split('"grp":"', 1)[1].split('"', 1)[0] if '"grp":"' in ln else None
+            if g is None or g != grp:
+                runs.append([i, i + 1, 0])
+            grp = g
         runs[-1][1] = i + 1
     for r in runs:
         head = lines[r[0]]
@@ -219,6 +227,17 @@ def run_and_judge(ctx, cfg, progs, name, source, totals):
         raise lib.ToolError(f"driver executed {d.get('programs')} of {len(progs)} programs")
     v = judge_balanced(ctx, cfg, trace)
     ctx.stage("judge", source=source, events=v["events"], violations=len(v["violations"]), deviations=len(v["deviations"]), chunks=v["chunks"], wall_s=v["wall_s"])
+    if v["violations"]:
+        ls = lib.read_lines(trace)
+        by = {}
+        for ln in v["violations"]:
+            e = json.loads(ls[ln - 1])
+            k = e.get("fn") or e.get("op")
+            if k == "apply":
+                k = "apply:" + json.loads(ls[lib.run_of_line(ls, ln)[0]])["prog"].get("kind", "?")
+            by[k] = by.get(k, 0) + 1
+        ctx.cov.setdefault("violations_by_kind", {}).update({f"{name}:{k}": n for k, n in by.items()})
+        lib.log(f"[{ctx.id}] violations by kind of event ({source}): {by}")
     lib.classify_trace(ctx, v, trace, source, program_of=program_of)
     totals["programs"] += len(progs)
     totals["events"] += v["events"]
